@@ -184,7 +184,8 @@ def build(rec: Dict[str, Any], seed: int, axis_aligned: bool = False) -> Built:
   sj = out.scalar_joints
   tattr = ""
   if F("tendon_spring"):
-    tattr += f' stiffness="{_v(r.uniform(1, 20))}" damping="{_v(r.uniform(0.1, 1))}"'
+    tpoly = (lambda hi: f" {_v(r.uniform(0.1, 0.5 * hi))} {_v(r.uniform(0.1, 0.5 * hi))}") if (F("poly") or r.random() < 0.4) else (lambda hi: "")
+    tattr += f' stiffness="{_v(r.uniform(1, 20))}{tpoly(4)}" damping="{_v(r.uniform(0.1, 1))}{tpoly(1)}"'
   if F("tendon_armature"):
     tattr += f' armature="{_v(r.uniform(0.01, 0.2))}"'
   if F("frictionloss") and F("tendon_fixed"):
